@@ -1,4 +1,4 @@
-\* C04 thorough (model checking only): 2 threads, <= 3 spans (verdict free), <= 4 frames, 1 task, nesting <= 3, all forms, incoming ids, async-fn spans.
+\* C04 thorough (model checking only, 1): 2 threads, <= 3 spans (verdict free), <= 4 frames, 1 task, nesting <= 2, all forms, incoming ids, async-fn spans.
 SPECIFICATION SSpec
 CONSTANTS
     NThreads = 2
@@ -9,7 +9,7 @@ CONSTANTS
     Forms <- MC_None
     MaxFrames = 4
     MaxTasks = 1
-    MaxDepth = 3
+    MaxDepth = 2
     Panics = FALSE
     MaxSpans = 3
     WithIncoming = TRUE
